@@ -205,6 +205,11 @@ class EnumGen:
                     suf = pool.pop() if pool else "N%d" % rng.randint(0, 10 ** 6)
                 if st == "prefixed":
                     n = T + suf
+                    if rng.random() < 0.07:
+                        n = T + n                 # the type name twice: TrimPrefix removes it ONCE (ColorColorRed -> ColorRed)
+                elif st == "plain" and rng.random() < 0.1:
+                    # the type name inside or at the end of the name: nothing to trim
+                    n = suf + T if rng.random() < 0.5 else suf + T + (pool.pop() if pool else "Z")
                 elif st == "lower":
                     n = T[:1].lower() + T[1:] + suf if T[:1].isupper() else "x" + T + suf
                 else:
@@ -1971,6 +1976,10 @@ def features_of(en):
                     for n in s["names"]:
                         if n != "_":
                             fs.add("prefixed" if n.startswith(T) else "unprefixed")
+                            if n.startswith(T + T):
+                                fs.add("doubled-prefix")
+                            elif T in n[1:]:
+                                fs.add("type-name-inside-name")
     return fs
 
 
@@ -2105,12 +2114,14 @@ def c01_case(ctx, g, cid, shape, feature, flags, mode):
     types = [[Q(e["T"]), e["kind"]] + (["sel"] if e["T"] in named else []) for e in ens]
     if aux:
         types.append([Q("Aux"), "int"])
-    args = ["enum"] + ["-" + f for f in flags] + sel
+    # behaviour-neutral flags (logging, version pin, output split): same expectation
+    neutral = [rng.choice(["-v", "-verbose", "-ver=v9.9.9", "-version=v0.0.1-verif", "-sep", "-separate"])] if rng.random() < 0.3 else []
+    args = ["enum"] + ["-" + f for f in flags] + (neutral + sel if rng.random() < 0.5 else sel + neutral)
     idents = sorted(set([n for e in ens for n in _all_names(e)] + [e["T"] for e in ens] + (["Aux"] if aux else []) + [n for n, _ in extra_decls]))
     sexp = dump(["case", cid, "c01enum", ["flags"] + flags, ["mode", mode], ["types"] + types, ["blocks"] + blocks_sexp]
                 + ([["locals"] + locals_sexp] if locals_sexp else []) + [["idents"] + [Q(n) for n in idents]])
     return {"id": cid, "area": "enum", "files": files, "runs": [{"args": args}], "oracle": {}, "sexp": sexp, "key": sexp,
-            "cmd": "shoot " + " ".join(args), "mode": mode, "flags": ["-" + f for f in flags], "shape": clash or shape,
+            "cmd": "shoot " + " ".join(args), "mode": mode, "flags": ["-" + f for f in flags], "shape": clash or shape, "neutral": [f.split("=")[0] for f in neutral],
             "feature": feature or "random", "kinds": [e["kind"] for e in ens]}
 
 
@@ -2154,7 +2165,7 @@ def c01_leg(ctx, res, n):
             plan.append(("wf", [None, "carried", "multi", "shift"][r], fl, modes[(k + r) % 4]))
     # 2. every region shape and every underlying kind / iota form, in every mode
     shaped = ([("neg", None), ("big", None), ("dupval", None), ("dupname", None), ("typedexpr", None), ("empty", None)] +
-              [(v, None) for v in C01_VARIANTS] + [("clash", None), ("clash-ok", None), ("clash-decl", None), ("clash-type-ok", None)] +
+              [(v, None) for v in C01_VARIANTS] + [("clash", None), ("clash-ok", None), ("clash-decl", None), ("clash-type-ok", None), ("table-clash", None)] +
               [("wf", "kind:" + k) for k in KIND_NAMES] +
               [("wf", f) for f in ["iota", "offset", "shift", "explicit", "multi", "lin", "hex", "carried", "placeholder",
                                    "multi-block", "multi-file", "accidental-prefix", "distractor"]])
@@ -2162,7 +2173,7 @@ def c01_leg(ctx, res, n):
         fl = [f for f in C01_FLAGS if f != "bit" and rng.random() < 0.4]
         if "gorm" in fl and "sql" not in fl:
             fl.append("sql")
-        plan.append((sh, ft, [f for f in C01_FLAGS if f in fl], modes[k % 4]))
+        plan.append((sh, ft, [f for f in C01_FLAGS if f in fl], modes[k % 4] if sh != "table-clash" else ["list", "file", "star"][k % 3]))
     for sh in ["neg", "big", "dupval", "dupname"]:
         for m in modes:
             plan.append((sh, None, [], m))
@@ -2185,6 +2196,7 @@ def c01_leg(ctx, res, n):
         res.hist("area", c["area"])
         res.hist("mode", "enum:" + c["mode"])
         res.hist("enum-shape", c["shape"])
+        res.hist("enum-neutral-flag", "+".join(c.get("neutral", [])) or "none")
         res.hist("enum-flagset", "+".join(f[1:] for f in c["flags"]) or "none")
         for k in c["kinds"]:
             res.hist("enum-kind", k)
